@@ -529,6 +529,7 @@ type Contract struct {
 	Trusted  string
 	Pure     bool
 	NoInline bool
+	Inline   bool // the contract only carries loop invariants / proof steps: calls are inlined, the clauses apply in the inlined body
 	Establishes bool // constructor: the package invariants are not assumed at entry, only proved at exit
 	Asserts  map[int][]Clause
 	After    map[string][]Clause // "callee#k" -> lemmas proved (then assumed) right after that call
@@ -569,7 +570,7 @@ func newSpecSet() *SpecSet {
 }
 
 var clauseKW = map[string]bool{"func": true, "method": true, "closure": true, "requires": true, "ensures": true, "modifies": true,
-	"decreases": true, "loop": true, "trusted": true, "pure": true, "noinline": true, "spec": true, "axiom": true, "lemma": true, "package": true, "assert": true, "invariant": true, "establishes": true}
+	"decreases": true, "loop": true, "trusted": true, "pure": true, "noinline": true, "spec": true, "axiom": true, "lemma": true, "package": true, "assert": true, "invariant": true, "establishes": true, "inline": true}
 
 // parseContractLines parses the "//@" lines of one file. pkgPath is the Go package whose scope resolves type names.
 func (ss *SpecSet) parseContractLines(lines []string, pkgPath, file string) error {
@@ -708,6 +709,8 @@ func (ss *SpecSet) parseContractLines(lines []string, pkgPath, file string) erro
 				cur.NoInline = true
 			case "establishes":
 				cur.Establishes = true
+			case "inline":
+				cur.Inline = true
 			case "loop", "assert":
 				f := strings.Fields(rest)
 				if kw == "assert" && len(f) >= 2 && f[0] == "return" {
